@@ -305,3 +305,10 @@ func envInt(name string, def int) int {
 	}
 	return x
 }
+
+func firstN(s string, n int) string {
+	if len(s) > n {
+		return s[:n]
+	}
+	return s
+}
